@@ -6,6 +6,7 @@ import (
 	"go/types"
 	"math"
 	"math/big"
+	"os"
 
 	"golang.org/x/tools/go/ssa"
 )
@@ -797,8 +798,8 @@ func (ex *Exec) layoutClass(l *StructLayout, t types.Type) int {
 // nullable (the object component is null for a nil pointer); every other pointer shape comes from
 // an address-of and is known non-nil.
 func ptrIsNil(s *State, p PtrV) Term {
-	if p.Kind != PSlot || p.Obj.S == "" {
-		return False
+	if p.Kind != PSlot || p.Obj.S == "" || os.Getenv("GOVC_SELFTEST_OLDNIL") != "" {
+		return False // (the environment switch re-creates the hole of section 12.5 for the self-test of the reach obligations)
 	}
 	if s.neq[p.Obj.S+"|null"] || isFreshSym(p.Obj.S) {
 		return False
